@@ -23,6 +23,12 @@ pub struct BbCase {
 	/// spurious badNonce answers: (position, k-th transmission, run length)
 	pub badnonce: Vec<(Pos, usize, usize)>,
 	pub nonce_on_get: bool,
+	/// one-shot error answers of any other kind (delivered, with a fresh nonce): (position, k-th transmission, ACME type)
+	#[serde(default)]
+	pub errors: Vec<(Pos, usize, String)>,
+	/// the CA forgets the account before the second run
+	#[serde(default)]
+	pub forget: bool,
 }
 
 fn bb_strategy() -> impl Strategy<Value = BbCase> {
@@ -37,12 +43,14 @@ fn bb_strategy() -> impl Strategy<Value = BbCase> {
 		any::<bool>(),
 		any::<bool>(),
 		eab,
-		proptest::collection::vec((pos, 1usize..=3, 1usize..=3), 0..=3),
+		proptest::collection::vec((pos.clone(), 1usize..=3, 1usize..=3), 0..=3),
 		any::<bool>(),
+		proptest::collection::vec((pos, 1usize..=2, proptest::sample::select(vec!["unauthorized", "rejectedIdentifier", "badCSR", "orderNotReady", "caa", "userActionRequired", "accountDoesNotExist", "serverInternal", "malformed"]).prop_map(|s| s.to_string())), 0..=2),
+		prop_oneof![3 => Just(false), 1 => Just(true)],
 	)
-		.prop_map(|(key1, key2, change_contacts, restart, eab, badnonce, nonce_on_get)| {
+		.prop_map(|(key1, key2, change_contacts, restart, eab, badnonce, nonce_on_get, errors, forget)| {
 			let key2 = key2.filter(|k| *k != key1);
-			BbCase { key1, key2, change_contacts, restart, eab, badnonce, nonce_on_get }
+			BbCase { key1, key2, change_contacts, restart, eab, badnonce, nonce_on_get, errors, forget }
 		})
 }
 
@@ -71,7 +79,8 @@ fn exec_bb_in(case: &BbCase, acmed: &std::path::Path, dir: &std::path::Path) -> 
 		Err(e) => return Outcome::Infra(e),
 	};
 	let ids = vec![("dns".to_string(), "j.jws.test".to_string())];
-	let faults: Vec<Fault> = case.badnonce.iter().map(|(p, nth, rep)| Fault { pos: p.clone(), nth: *nth, repeat: *rep, action: Action::Acme("badNonce".into()), cert: None }).collect();
+	let mut faults: Vec<Fault> = case.badnonce.iter().map(|(p, nth, rep)| Fault { pos: p.clone(), nth: *nth, repeat: *rep, action: Action::Acme("badNonce".into()), cert: None }).collect();
+	faults.extend(case.errors.iter().map(|(p, nth, t)| Fault { pos: p.clone(), nth: *nth, repeat: 1, action: Action::Acme(t.clone()), cert: None }));
 	let plan = CaPlan {
 		faults,
 		nonce_on_get: case.nonce_on_get,
@@ -98,7 +107,7 @@ fn exec_bb_in(case: &BbCase, acmed: &std::path::Path, dir: &std::path::Path) -> 
 				"identifiers": [{"dns": "j.jws.test", "challenge": "http-01"}]}],
 		})
 	};
-	let second_run = case.key2.is_some() || case.change_contacts || case.restart;
+	let second_run = case.key2.is_some() || case.change_contacts || case.restart || case.forget;
 	let runs: Vec<(String, Vec<&str>)> = if second_run {
 		vec![
 			(case.key1.clone(), vec!["first@jws.test"]),
@@ -114,8 +123,18 @@ fn exec_bb_in(case: &BbCase, acmed: &std::path::Path, dir: &std::path::Path) -> 
 			Ok(d) => d,
 			Err(e) => return Outcome::Infra(e),
 		};
-		let end = bb::wait_total_postops(&coll, &mut daemon, posts_seen + 1, Duration::from_secs(90));
-		let run = bb::finish_run(&coll, daemon, end);
+		if ri == 1 && case.forget {
+			ca.forget_accounts();
+		}
+		// one-shot error answers may fail an attempt: the run goes on until an attempt succeeds (at most 4)
+		let base = posts_seen;
+		coll.hold_when(Box::new(move |r, prev| bb::is_post(r) && (r.arg("is_success") == Some("true") || prev.iter().filter(|p| bb::is_post(p)).count() >= base + 3)));
+		let ok = coll.wait_until(
+			&|r| r.iter().skip_while(|_| false).filter(|x| bb::is_post(x)).count() > base && (r.iter().filter(|x| bb::is_post(x)).skip(base).any(|x| x.arg("is_success") == Some("true")) || r.iter().filter(|x| bb::is_post(x)).count() >= base + 4),
+			Duration::from_secs(90),
+			&mut || daemon.state() != crate::daemon::ProcState::Alive,
+		);
+		let run = bb::finish_run(&coll, daemon, if ok { WaitEnd::Reached } else { WaitEnd::Timeout });
 		let snap = ca.snapshot();
 		// strict side of the CA: any event on any POST is a violation
 		if let Some(e) = snap.events.iter().find(|e| ALL_EVENT_CODES.contains(&e.code.as_str())) {
@@ -129,9 +148,12 @@ fn exec_bb_in(case: &BbCase, acmed: &std::path::Path, dir: &std::path::Path) -> 
 			return Outcome::fail("C04:flow-incomplete", format!("run {ri}: {:?}\n{}", run.end, run.stderr_tail));
 		}
 		let posts = bb::post_of(&run.records, "c1");
-		let p = posts[posts_seen];
+		let p = posts[posts.len() - 1];
 		if p.arg("is_success") != Some("true") {
-			return Outcome::fail("C04:flow-failed", format!("run {ri} failed although the CA only injected spurious badNonce answers: {:?}\n{}", p.arg("status"), run.stderr_tail));
+			return Outcome::fail("C04:flow-failed", format!("run {ri}: no attempt succeeded although the CA only injected spurious badNonce answers and {} one-shot errors: {:?}\n{}", case.errors.len(), p.arg("status"), run.stderr_tail));
+		}
+		if case.errors.is_empty() && posts.len() != posts_seen + 1 {
+			return Outcome::fail("C04:flow-failed", format!("run {ri}: {} attempts were needed without any injected error\n{}", posts.len() - posts_seen, run.stderr_tail));
 		}
 		posts_seen = posts.len();
 	}
@@ -139,10 +161,11 @@ fn exec_bb_in(case: &BbCase, acmed: &std::path::Path, dir: &std::path::Path) -> 
 	// the CA's record follows the configuration
 	let want_kt = runs.last().unwrap().0.clone();
 	let live: Vec<_> = snap.accounts.iter().filter(|a| !a.forgotten).collect();
-	if live.len() != 1 {
+	// (an EAB re-registration or a key change racing with an injected error may legitimately leave an orphan)
+	if live.is_empty() || (live.len() != 1 && case.errors.is_empty()) {
 		return Outcome::fail("C04:account-count", format!("{} accounts at the CA after the flows", live.len()));
 	}
-	let got_kt = jwk::pubkey_from_jwk(&live[0].jwk).map(|k| k.describe()).unwrap_or_default();
+	let got_kt = jwk::pubkey_from_jwk(&live[live.len() - 1].jwk).map(|k| k.describe()).unwrap_or_default();
 	let want_desc = match want_kt.as_str() {
 		"rsa2048" => "rsa2048",
 		"rsa4096" => "rsa4096",
@@ -169,9 +192,15 @@ fn exec_bb_in(case: &BbCase, acmed: &std::path::Path, dir: &std::path::Path) -> 
 	if retried {
 		classes.push("badNonce-retry".into());
 	}
+	if !case.errors.is_empty() {
+		classes.push("error-answers".into());
+	}
+	if case.forget {
+		classes.push("ca-forgot-account".into());
+	}
 	let n_posts = snap.log.iter().filter(|l| l.method == "POST").count();
 	classes.push(format!("posts~{}", n_posts / 10 * 10));
-	Outcome::pass(retried || case.key2.is_some() || case.eab.is_some(), classes)
+	Outcome::pass(retried || case.key2.is_some() || case.eab.is_some() || !case.errors.is_empty() || case.forget, classes)
 }
 
 // ------------------------------------------------ probe batches
@@ -316,8 +345,8 @@ fn exec_pr(case: &PrCase) -> Outcome {
 }
 
 pub fn run(ctx: &Ctx, rep: &mut Report) {
-	rep.rule = "bb: message flows of the real daemon (account key of any of 7 types; first registration + issuance; then optionally an edited configuration: key type change = roll-over between any two types, contact change, plain restart; external account binding HS256/384/512; spurious badNonce answers at random positions and run lengths; CA with/without nonces on GET) against the strict mock CA, which checks every POST: flattened JWS shape, header members, alg vs key on record, url == request URL, nonce issued by this server and unused, jwk only for newAccount / inside key-change, kid otherwise, signature under the key on record (OpenSSL + ring, fixed-width R||S), payload shape, inner key-change JWS and EAB JWS. Any strict event is a violation; every run must succeed and the CA's key must follow the configuration. Non-trivial = history with a badNonce retry, a roll-over or EAB. pr: batches of JWS produced by the daemon's builders in the probe over random payloads/URLs/nonces/kids with a fresh key per JWS (and random MAC keys), each decoded and verified by the harness; non-trivial = an ECDSA signature whose r or s starts with a zero octet (or a MAC case).".into();
-	rep.assume("nonce freshness is judged on fault-free and badNonce-only histories (rule 3.3 of DESIGN.md)");
+	rep.rule = "bb: message flows of the real daemon (account key of any of 7 types; first registration + issuance; then optionally an edited configuration: key type change = roll-over between any two types, contact change, plain restart; external account binding HS256/384/512; spurious badNonce answers at random positions and run lengths; 0..2 one-shot error answers of other ACME types, each delivered with a fresh nonce; the CA forgetting the account between the runs; CA with/without nonces on GET) against the strict mock CA, which checks every POST: flattened JWS shape, header members, alg vs key on record, url == request URL, nonce issued by this server and unused, jwk only for newAccount / inside key-change, kid otherwise, signature under the key on record (OpenSSL + ring, fixed-width R||S), payload shape, inner key-change JWS and EAB JWS. Any strict event is a violation; every run must succeed and the CA's key must follow the configuration. Non-trivial = history with a badNonce retry, a roll-over or EAB. pr: batches of JWS produced by the daemon's builders in the probe over random payloads/URLs/nonces/kids with a fresh key per JWS (and random MAC keys), each decoded and verified by the harness; non-trivial = an ECDSA signature whose r or s starts with a zero octet (or a MAC case).".into();
+	rep.assume("nonce freshness is judged on histories in which every response is delivered (badNonce and other error answers carry a fresh nonce); dropped connections and nonce-less answers are not injected here");
 	run_replays::<BbCase>(ctx, rep, "bb", &exec_bb);
 	run_replays::<PrCase>(ctx, rep, "pr", &exec_pr);
 	if ctx.replay.is_some() {
